@@ -701,7 +701,7 @@ func (fr *Frame) atCallGhost(calleeShort string, pn []string, args []Value, st *
 		return k, nil
 	}
 	for _, cl := range fr.contract.AtCall {
-		if cl.Call == calleeShort && cl.CallK == k && r.active(cl.Tags) {
+		if cl.Call == calleeShort && (cl.CallK == k || cl.CallK == -1) && r.active(cl.Tags) {
 			callerNames := map[string]Value{}
 			for i, n := range pn {
 				if i < len(args) {
